@@ -516,6 +516,33 @@ func buildHeap(l bootengine.Log) *heapProj {
 		}
 		hp.arrs = append(hp.arrs, harray{x.lo, x.hi, x.full})
 	}
+	// number the arrays in the order the log first mentions them (addresses differ
+	// from run to run, the case files must not)
+	first := make([]int, len(hp.arrs))
+	for i := range first {
+		first[i] = -1
+	}
+	for n, r := range logSlices(l) {
+		if cap(r) == 0 {
+			continue
+		}
+		base := uintptr(unsafe.Pointer(unsafe.SliceData(r)))
+		for i, a := range hp.arrs {
+			if base >= a.lo && base < a.hi && first[i] < 0 {
+				first[i] = n
+			}
+		}
+	}
+	idx := make([]int, len(hp.arrs))
+	for i := range idx {
+		idx[i] = i
+	}
+	sort.SliceStable(idx, func(a, b int) bool { return first[idx[a]] < first[idx[b]] })
+	arrs := make([]harray, len(hp.arrs))
+	for k, i := range idx {
+		arrs[k] = hp.arrs[i]
+	}
+	hp.arrs = arrs
 	return hp
 }
 
@@ -1065,7 +1092,50 @@ type stageObs struct {
 	iss      []oissue
 	post     [][]hrange // the backing arrays afterwards
 	changed  bool       // ... differ from before
+	foreign  string     // a write that is neither an in-place sort of a slice nor within reach of a slice with fewer than two ranges and spare capacity
 	snap     []string   // what the log says afterwards
+}
+
+// unexplainedWrite looks at what one validator run did to the memory behind the
+// log.  Two kinds of writes are accounted for: permuting the ranges inside a slice
+// of the log (in-place sort) and writes within reach (up to cap) of a slice with
+// fewer than two ranges and spare capacity (the listed finding
+// C10-shared-backing-append: the code does not re-allocate such a slice before
+// appending to it).  Returns a description of the first other write, or "".
+func unexplainedWrite(pre, post [][]hrange, slots []slot) string {
+	multiset := func(h [][]hrange, s slot) string {
+		v := append([]hrange(nil), h[s.arr][s.off:s.off+s.n]...)
+		sort.Slice(v, func(i, j int) bool {
+			if v[i].Off != v[j].Off {
+				return v[i].Off < v[j].Off
+			}
+			return v[i].Len < v[j].Len
+		})
+		return fmt.Sprint(v)
+	}
+	for a := range pre {
+		for p := range pre[a] {
+			if pre[a][p] == post[a][p] {
+				continue
+			}
+			ok := false
+			for _, s := range slots {
+				if s.arr != a || p < s.off {
+					continue
+				}
+				if s.n < 2 && s.c > s.n && p < s.off+s.c {
+					ok = true // within reach of a small slice with spare capacity
+				}
+				if p < s.off+s.n && multiset(pre, s) == multiset(post, s) {
+					ok = true // the slice was permuted
+				}
+			}
+			if !ok {
+				return fmt.Sprintf("element %d of backing array %d changed from %#x+%#x to %#x+%#x", p, a, pre[a][p].Off, pre[a][p].Len, post[a][p].Off, post[a][p].Len)
+			}
+		}
+	}
+	return ""
 }
 
 func (s stageObs) name() string {
@@ -1102,6 +1172,15 @@ func runCase(c *gal.Ctx, f *hflow) {
 			smallSpare = true
 		}
 	}
+	var slots []slot
+	for _, ps := range psteps {
+		for _, r := range ps.meas {
+			slots = append(slots, r.sl)
+		}
+		for _, r := range ps.code {
+			slots = append(slots, r.sl)
+		}
+	}
 	cur := h0
 	stage := func(kind, pass int) stageObs {
 		o := stageObs{kind: kind, pass: pass}
@@ -1115,6 +1194,9 @@ func runCase(c *gal.Ctx, f *hflow) {
 		}
 		o.post = hp.contents()
 		o.changed = !sameHeap(cur, o.post)
+		if o.changed {
+			o.foreign = unexplainedWrite(cur, o.post, slots)
+		}
 		cur = o.post
 		o.snap = f.snapshot(res.log)
 		return o
